@@ -26,6 +26,9 @@ Rl(tg, src, kind, id) == MkRule(tg, src, kind, id, 0, <<>>, FALSE, FALSE)
 \* the first line of the command is killed by a signal (no exit code) instead of exiting non-zero
 Killed(r) == [r EXCEPT !.cl = <<"vcmd killed">> \o Tail(@)]
 
+\* workspace directories the user may remove and make again: directory name -> the paths in it (overridden by scenarios that have some)
+DirPaths == [d \in {} |-> {}]
+
 Init ==
   /\ InitCore /\ ord = Ord0 /\ rules = Menu[1]
   /\ ws = [p \in {Init0[i][1] : i \in DOMAIN Init0} |->
@@ -39,15 +42,17 @@ Scr(e) == Script = <<>> \/ (g.nuser + 1 \in DOMAIN Script /\ Script[g.nuser + 1]
 UserNext ==
   \/ Can("rules") /\ \E k \in DOMAIN Menu : Menu[k] # rules /\ Scr(<<"rules", k>>) /\ SetRules(Menu[k])
   \/ Can("edit") /\ \E p \in Leaves, c \in SrcVals : (IF Has(ws, p) THEN ws[p].c # c ELSE TRUE) /\ Scr(<<"edit", p, c>>) /\ Edit(p, c)
-  \/ Can("tamper") /\ \E p \in AllTargets : (IF Has(ws, p) THEN ws[p].c # "J" ELSE TRUE) /\ Scr(<<"edit", p, "J">>) /\ Edit(p, "J")
+  \/ Can("tamper") /\ \E p \in AllTargets \ rdir.nodir : (IF Has(ws, p) THEN ws[p].c # "J" ELSE TRUE) /\ Scr(<<"edit", p, "J">>) /\ Edit(p, "J")
   \/ Can("deltarget") /\ \E p \in AllTargets \cap DOMAIN ws : Scr(<<"del", p>>) /\ DelFile(p)
   \/ Can("delleaf") /\ \E p \in Leaves \cap DOMAIN ws : Scr(<<"del", p>>) /\ DelFile(p)
   \/ Can("delcache") /\ \E n \in DOMAIN cache : Scr(<<"delcache", n>>) /\ DelCache(n)
   \/ Can("delruler") /\ \E w \in {"all", "cache", "history", "table"} : Scr(<<"delruler", w>>) /\ DelRuler(w)
   \/ Can("env") /\ \E v \in {"e0", "e1"} : v # env /\ Scr(<<"env", v>>) /\ ChangeEnv(v)
-  \/ Can("mv") /\ Has(ws, "zz") /\ \E q \in AllTargets : Scr(<<"mv", "zz", q>>) /\ Move("zz", q)
+  \/ Can("mv") /\ Has(ws, "zz") /\ \E q \in AllTargets \ rdir.nodir : Scr(<<"mv", "zz", q>>) /\ Move("zz", q)
   \/ Can("corrupt") /\ rdir.tab = "ok" /\ Scr(<<"corrupt", "table", "">>) /\ Corrupt("table", "")
   \/ Can("corrupt") /\ \E rid \in DOMAIN hist : Scr(<<"corrupt", "hist", rid>>) /\ Corrupt("hist", rid)
+  \/ Can("rmdir") /\ \E d \in DOMAIN DirPaths : Scr(<<"rmdir", d>>) /\ RmDir(d, DirPaths[d])
+  \/ Can("mkdir") /\ \E d \in DOMAIN DirPaths : Scr(<<"mkdir", d>>) /\ MkDir(d, DirPaths[d])
   \/ Can("build") /\ \E gl \in Goals : Scr(<<"build", gl>>) /\ StartBuild(gl)
   \/ Can("clean") /\ \E gl \in Goals : Scr(<<"clean", gl>>) /\ StartClean(gl)
   \/ Can("crash") /\ Can("build") /\ \E n \in 1..3 : CrashInInit(n)
